@@ -1106,6 +1106,11 @@ class HistoryGen:
         v = gen.gen_plain(r, self.depth)
         if type(v) not in (list, dict):
             v = r.choice([[v], {"a": v}, [v, [v]], {"k": [v], "n": {"m": v}}, ["a", "b"], ["id"]])
+        if type(v) is dict and r.random() < 0.3:
+            v = dict(v)
+            v[...] = ...                   # the "and anything else" marker of a partial value, owned by the caller
+        elif type(v) is list and v and r.random() < 0.15:
+            v = r.choice([[...] + v, v + [...]])
         src = gen.vsrc(v)
         if "<unreplayable" in src:
             return None
@@ -1550,6 +1555,96 @@ def probe_generation_independence(ctx):
     return n
 
 
+def probe_marker_arguments(ctx):
+    """Values that carry `...` markers (partial values: `...: ...` in dicts, `...` first/last in lists), at any
+    depth, handed to %, validate, == and from_native: the caller's containers are exactly as they were, whether
+    the operation succeeds or raises."""
+    from d42.utils import from_native
+    r = ctx.rng
+    pairs = [("schema.dict", {"id": 1, ...: ...}), ("schema.dict({...: ...})", {"id": 1, ...: ...}), ("schema.dict", {...: ...}),
+             ("schema.list(schema.dict)", [{"a": 1, ...: ...}, {...: ...}]), ("schema.dict({'m': schema.dict})", {"m": {"x": 1, ...: ...}}),
+             ("schema.dict({'a': schema.int, ...: ...})", {"a": 1, ...: ...}), ("schema.any(schema.dict, schema.none)", {"k": "v", ...: ...}),
+             ("schema.list", [1, ...]), ("schema.list(schema.int)", [..., 1, 2]), ("schema.list([schema.int, ...])", [1, ...]),
+             ("schema.dict({'l': schema.list})", {"l": [..., "x"]}), ("schema.any", {"a": [1, ...], ...: ...})]
+    for _ in range(ctx.scale(40, 400)):
+        ssrc, s = gen.gen_schema(r, r.randint(1, 3))
+        try:
+            v = gen.conform(r, s)
+        except Exception:  # noqa
+            continue
+        pos = [p for p in gen.positions(v) if type(_at(v, p)) in (dict, list)]
+        if not pos:
+            continue
+        w = copy.deepcopy(v)
+        for p in r.sample(pos, 1):
+            c = _at(w, p)
+            if type(c) is dict:
+                c[...] = ...
+            elif r.random() < 0.5:
+                c.append(...)
+            else:
+                c.insert(0, ...)
+        pairs.append((ssrc, w))
+    ops = {"%": lambda s, v: s % v, "validate": lambda s, v: validate(s, v), "==": lambda s, v: s == v,
+           "from_native": lambda s, v: from_native(v)}
+    n = 0
+    for ssrc, v in pairs:
+        s = gen.build(ssrc)
+        for name, f in ops.items():
+            before = _plain_dump(v)
+            try:
+                f(s, v)
+                out = "returned"
+            except Exception as e:  # noqa
+                out = "raised " + type(e).__name__
+            n += 1
+            if _plain_dump(v) != before:
+                ctx.violation(f"`{name}` changed a value passed in (a partial value with `...` markers)",
+                              {"kind": "input", "schema": ssrc, "value_before": before[:300], "value_after": _plain_dump(v)[:300],
+                               "operation": name, "outcome": out, "expected": "the caller's value unchanged"})
+                return n
+    return n
+
+
+def probe_augmented_assignment(ctx):
+    """`x = s; x += t` (likewise |= and %=) binds x to a NEW schema: the object s still refers to is unchanged,
+    whatever in-place protocol methods exist."""
+    r = ctx.rng
+    n = 0
+    for _ in range(ctx.scale(60, 600)):
+        d1 = gen.build("schema.dict")({k: gen.gen_schema(r, 1)[1] for k in r.sample(["a", "b", "c", "id"], r.randint(0, 3))})
+        d2 = gen.build("schema.dict")({k: gen.gen_schema(r, 1)[1] for k in r.sample(["b", "z", "id", "k"], r.randint(1, 3))})
+        _, s1 = gen.gen_schema(r, 2)
+        _, s2 = gen.gen_schema(r, 1)
+        try:
+            v1 = gen.conform(r, s1)
+        except Exception:  # noqa
+            v1 = None
+        parent = gen.build("schema.list")([d1, s1])            # something that HOLDS the operands
+        trials = [("+=", d1, d2), ("|=", s1, s2), ("|=", d1, s2), ("%=", s1, v1), ("+=", d1, d1)]
+        for opname, left, right in trials:
+            before = (dump(left), repr(left), dump(parent), repr(parent))
+            x = left
+            try:
+                if opname == "+=":
+                    x += right
+                elif opname == "|=":
+                    x |= right
+                else:
+                    x %= right
+            except Exception:  # noqa
+                x = None
+            n += 1
+            after = (dump(left), repr(left), dump(parent), repr(parent))
+            if after != before or (x is left and x is not None):
+                ctx.violation(f"`x = s; x {opname} t` changed the existing schema s (or returned it)",
+                              {"kind": "history", "operator": opname, "s_before": before[1][:300], "s_after": after[1][:300],
+                               "t": repr(right)[:200], "same_object_returned": x is left,
+                               "expected": "a new schema; s and everything holding s unchanged"})
+                return n
+    return n
+
+
 def probe_rendering(ctx):
     """validate(schema, value, path=p) with a caller-owned path object, then the result rendered
     twice: rendering is an operation too - it returns the same text both times and leaves the
@@ -1683,6 +1778,8 @@ def run(ctx):
     ctx.coverage.setdefault("distribution", {})["dict_subclass_probes"] = probes
     ctx.coverage["distribution"]["fresh_interpreter_ops"] = probe_fresh_interpreter(ctx)
     ctx.coverage["distribution"]["rendering_probes"] = probe_rendering(ctx)
+    ctx.coverage["distribution"]["augmented_assignment_probes"] = probe_augmented_assignment(ctx)
+    ctx.coverage["distribution"]["marker_argument_probes"] = probe_marker_arguments(ctx)
     ctx.coverage["distribution"]["generation_independence_probes"] = indep
 
 
